@@ -110,7 +110,25 @@ class Check:
                 opts['witness_stop'] = True
             jobs.append({'name': f.name, 'll': ll, 'entry': f.entry, 'opts': opts, 'weight': f.weight,
                          'keep_paths': max(f.validate, 3)})
+        # native replay programs are built concurrently with the symbolic runs' tail: one thread per distinct build
+        import concurrent.futures
+        pool = concurrent.futures.ThreadPoolExecutor(max_workers=8)
+        try:
+            build.native_lib(s.d)
+        except Exception:
+            pass
+        futs = {}
+        for f in fams:
+            key = (f.harness, f.defs)
+            if key not in futs:
+                futs[key] = pool.submit(s._native, f)
         results = e1.run_all(jobs)
+        for fu in futs.values():
+            try:
+                fu.result()
+            except Exception:
+                pass
+        pool.shutdown()
         for f, r in zip(fams, results):
             s._digest_e1(f, r)
 
